@@ -179,6 +179,11 @@ pub struct NetCase {
     /// virtual instant - i.e. in the middle of one poll of the serving future
     #[serde(default)]
     pub shutdown_on_accept: Option<u8>,
+    /// order of the client builder calls: 0 = transport and protocol first, settings (timeout, pool)
+    /// afterwards; 1 = settings first, then every call that rebuilds the builder (body types,
+    /// transport, protocol, redirect policy, an identity layer) - no setting may get lost on the way
+    #[serde(default)]
+    pub builder_order: u8,
     pub pool: Option<NetPool>,
     pub connect_delay: u8,
     pub latency: u8,
@@ -761,20 +766,36 @@ fn build_client(case: &NetCase, routes: Arc<Vec<DuplexClient>>, dials: Arc<Atomi
         latency: Duration::from_millis(if effective_buf(case) >= 64 { case.latency as u64 } else { 0 }),
         dials,
     };
+    let pool_cfg = case.pool.as_ref().map(|p| {
+        let mut cfg = hyperdriver::client::PoolConfig::default();
+        cfg.max_idle_per_host = p.max_idle as usize;
+        cfg.continue_after_preemption = p.cont;
+        cfg.idle_timeout = None;
+        cfg
+    });
+    let timeout = case.timeout_ms.map(|t| Duration::from_millis(t as u64));
+    if case.builder_order % 2 == 1 {
+        let b = hyperdriver::Client::builder().with_optional_timeout(timeout);
+        let b = match pool_cfg {
+            Some(cfg) => b.with_pool(cfg),
+            None => b.without_pool(),
+        };
+        return b
+            .with_body::<ChunkBody, hyperdriver::Body>()
+            .with_transport(transport)
+            .with_auto_http()
+            .without_redirects()
+            .layer(tower::layer::util::Identity::new())
+            .build_service();
+    }
     let b = hyperdriver::Client::builder()
         .with_body::<ChunkBody, hyperdriver::Body>()
         .with_transport(transport)
         .with_auto_http()
         .without_redirects()
-        .with_optional_timeout(case.timeout_ms.map(|t| Duration::from_millis(t as u64)));
-    let b = match &case.pool {
-        Some(p) => {
-            let mut cfg = hyperdriver::client::PoolConfig::default();
-            cfg.max_idle_per_host = p.max_idle as usize;
-            cfg.continue_after_preemption = p.cont;
-            cfg.idle_timeout = None;
-            b.with_pool(cfg)
-        }
+        .with_optional_timeout(timeout);
+    let b = match pool_cfg {
+        Some(cfg) => b.with_pool(cfg),
         None => b.without_pool(),
     };
     b.build_service()
@@ -1064,7 +1085,7 @@ pub fn run_net_case(case: &NetCase) -> Result<Obs, String> {
                 o.conn_at_horizon = (0..nsrv).map(|s| (o.conn_spawned[s], o.conn_finished[s])).collect();
             }
             // probes: a fresh client, one well-behaved request per server
-            let probe_case = NetCase { pool: None, connect_delay: 0, latency: 0, buf: 4096, timeout_ms: None, ..case.clone() };
+            let probe_case = NetCase { pool: None, connect_delay: 0, latency: 0, buf: 4096, timeout_ms: None, builder_order: 0, ..case.clone() };
             let probe_svc = build_client(&probe_case, routes.clone(), Arc::new(AtomicUsize::new(0)));
             for s in 0..nsrv {
                 let version = if case.servers[s] % 3 == 1 { http::Version::HTTP_2 } else { http::Version::HTTP_11 };
